@@ -83,3 +83,36 @@ pub mod vx_rand_ax {
         ensures lo <= (#[trigger] uniform_u64_draw(lo, hi, st)).0 < hi;
     pub broadcast group rand_ranges { unit_range_ok, uniform01_in_unit, uniform_usize_in_range, uniform_u64_in_range }
 }
+
+// concrete generators: state after seeding is a pure function of the seed
+pub uninterp spec fn xoshiro_seed(s: u64) -> int;
+pub uninterp spec fn xoshiro_from_seed(s: Seq<u8>) -> int;
+pub uninterp spec fn chacha_seed(s: u64) -> int;
+#[verifier::external_body]
+pub struct Xoshiro256PlusPlus { _p: u8 }
+impl Rng for Xoshiro256PlusPlus { uninterp spec fn st(&self) -> int; }
+impl Xoshiro256PlusPlus {
+    #[verifier::external_body]
+    pub fn seed_from_u64(s: u64) -> (r: Self) ensures r.st() == xoshiro_seed(s) { unimplemented!() }
+    #[verifier::external_body]
+    pub fn from_seed(s: [u8; 32]) -> (r: Self) ensures r.st() == xoshiro_from_seed(s@) { unimplemented!() }
+}
+impl Clone for Xoshiro256PlusPlus {
+    #[verifier::external_body]
+    fn clone(&self) -> (r: Self) ensures r.st() == self.st() { unimplemented!() }
+}
+#[verifier::external_body]
+pub struct ChaCha12Rng { _p: u8 }
+impl Rng for ChaCha12Rng { uninterp spec fn st(&self) -> int; }
+impl ChaCha12Rng {
+    #[verifier::external_body]
+    pub fn seed_from_u64(s: u64) -> (r: Self) ensures r.st() == chacha_seed(s) { unimplemented!() }
+}
+// Exp1 (rand_distr): positive draws
+pub struct Exp1;
+pub uninterp spec fn exp1_draw(st: int) -> (f64, int);
+impl Distribution<f64> for Exp1 {
+    open spec fn draw(&self, st: int) -> (f64, int) { exp1_draw(st) }
+    #[verifier::external_body]
+    fn sample<R: Rng>(&self, rng: &mut R) -> (r: f64) { unimplemented!() }
+}
